@@ -2,7 +2,7 @@
    model's node and the monitor's bookkeeping, and its generic consequences. *)
 From V.lib Require Import Base.
 From V.model Require Import MemPool MemPoolSpec TxFlow TxFlowSpec.
-From V.proofs Require Import MemPool_Proofs TxFlow_Base TxFlow_Model.
+From V.proofs Require Import MemPool_Proofs TxFlow_Base TxFlow_Model TxFlow_Block.
 
 Section Flow.
 Variable dl : Z.
@@ -730,7 +730,8 @@ Proof.
   unfold process_unconfirmed.
   destruct (add_transaction (mp n) (now n) t body tr) as [m1 [[cfs0 tr1] added]].
   cbn [fst snd] in Hadd, Hfacts. destruct Hadd as [HR1 Hobs]. destruct Hfacts as [Htr1 Htrust].
-  unfold ref_step in HR1, Hobs. fold p in HR1, Hobs. rewrite Hheld in HR1, Hobs.
+  change (held p t = false) in Hheld.
+  unfold ref_step in HR1, Hobs. rewrite Hheld in HR1, Hobs.
   cbn [fst snd] in HR1, Hobs. inversion Hobs as [[Hadded Hcfs]].
   assert (added = true) by (destruct added; [reflexivity|discriminate]). subst added.
   fold cfs in Hcfs. subst cfs0. specialize (Htr1 eq_refl). subst tr1. clear Hobs Hadded.
@@ -738,6 +739,7 @@ Proof.
   assert (Hndc : NoDup cfs) by (apply add_returns_conflicts, (R_nodup _ _ (vu_R _ _ HU))).
   assert (Htc : t ∉ cfs).
   { intros Hin. apply conflicts_of_elem in Hin. destruct Hin as [Hne _]. congruence. }
+  change (conflicts_of p t body) with cfs.
   pose proof (mark_conflicts_spec noF (states n) cfs Hndc (set_mp n m1) []) as Hmark.
   destruct (mark_conflicts (set_mp n m1) cfs []) as [n2 evs1].
   destruct (Hmark n2 evs1 eq_refl) as (Hmp2 & Hmisc2 & Hunc2 & HE2 & evs1' & Hacc & Hev1 & Hev2).
@@ -758,7 +760,7 @@ Proof.
     destruct (vu_US _ _ HU x Hu) as (so & Hso & _). congruence. }
   (* common parts of the conclusion, for a final node n' that agrees with n2 except at key t *)
   assert (Fin : forall n' evs,
-    mp n' = m1 -> same_misc n2 n' -> Ext noF (states n) (states n') evs ->
+    mp n' = mp n2 -> same_misc n2 n' -> Ext noF (states n) (states n') evs ->
     (forall x, x <> t -> unconf n' !! x = unconf n2 !! x) ->
     (tx_caseA n n' evs t rel \/ tx_caseB n n' evs t rel tr sf cn \/ tx_caseC n n' evs t body rel tr sf cn) ->
     (exists evt, evs = evs1 ++ evt /\ (forall x s, tev_in evt x s -> x = t)) ->
@@ -775,7 +777,7 @@ Proof.
     (forall c, c ∈ cfs -> is_Some (unconf n !! c) -> exists s, EUpdate c s ∈ evs /\ s_unsafe s = true) /\
     (forall x s, ETx x s ∈ evs -> x = t)).
   { intros n' evs Hmp' Hmisc' HE' Hunc' Hcase (evt & Hevs & Hevt).
-    split; [rewrite Hmp'; exact HR1|]. split; [rewrite Hmp'; exact Htrust|].
+    split; [rewrite Hmp', Hmp2; exact HR1|]. split; [rewrite Hmp', Hmp2; exact Htrust|].
     split; [eapply same_misc_trans; [|exact Hmisc']; exact Hmisc2|]. split; [exact HE'|].
     split; [intros x Hne; rewrite (Hunc' x Hne); apply Hunc2|]. split; [exact Hcase|].
     split; [|split].
@@ -802,9 +804,8 @@ Proof.
     - left. split; [exact Hnt|]. split; [cbn; apply lookup_delete|]. split; [exact Htk1|]. left. reflexivity.
     - exists []. rewrite app_nil_r. split; [reflexivity|]. intros x s H. destruct (tev_in_nil _ _ H). }
   cbn [negb].
-  destruct (unconf n2 !! t) as [u|] eqn:Eu.
+  rewrite Hu2t. destruct (unconf n !! t) as [u|] eqn:Eu.
   - (* already tracked *)
-    rewrite Hu2t in Eu.
     destruct (vu_US _ _ HU t) as (so & Hso & Hpo); [eauto|].
     fold cn.
     set (u1 := UTx (u_time u) (u_unsafe u) (u_safe u || sf) (u_trusted u || tr)).
@@ -886,7 +887,6 @@ Proof.
            intros s H. eapply HnoETx1; eauto.
         -- exists []. rewrite app_nil_r. split; [reflexivity|]. intros x s H. destruct (tev_in_nil _ _ H).
   - (* not tracked *)
-    rewrite Hu2t in Eu.
     cbn [states set_unconf now]. rewrite Hs2t.
     destruct (states n !! t) as [s|] eqn:Est.
     + (* delivered earlier and not tracked: confirmed *)
@@ -916,7 +916,7 @@ Proof.
       apply Fin; try reflexivity.
       * repeat split.
       * cbn [states set_states set_unconf]. subst nn. cbn [states set_unconf].
-        apply Ext_new; [exact HE2|exact Htk1|rewrite Hs2t; exact Est| |].
+        apply Ext_new; [exact HE2|exact Htk1|exact Hs2t| |].
         -- subst s1. unfold flags. destruct cn; cbn; split; try reflexivity; try discriminate.
            rewrite andb_false_r. reflexivity.
         -- left. subst s1. destruct cn; reflexivity.
@@ -927,6 +927,742 @@ Proof.
         subst s1. destruct cn; cbn; rewrite ?outs_ok_spent, ?orb_diag, ?andb_true_r, ?andb_false_r; auto.
       * eexists. split; [reflexivity|]. intros x s' H. apply tev_in_single in H.
         destruct H as [H|H]; inversion H; reflexivity.
+Qed.
+
+(* ---------------------------------------------------------------------------------------- *)
+(* an unconfirmed transaction is processed: the simulation step *)
+Lemma pu_held n p t body rel tr sf : R (mp n) p -> held p t = true ->
+  process_unconfirmed n t body rel tr sf = (set_mp n (fst (add_transaction (mp n) (now n) t body tr)), []) /\
+  R (fst (add_transaction (mp n) (now n) t body tr)) p.
+Proof.
+  intros HR Hh. pose proof (R_add (mp n) p (now n) t body tr HR) as Hadd. cbv zeta in Hadd.
+  unfold process_unconfirmed.
+  destruct (add_transaction (mp n) (now n) t body tr) as [m1 [[cfs tr1] added]].
+  cbn [fst snd] in Hadd. destruct Hadd as [HR1 Hobs]. unfold ref_step in HR1, Hobs. rewrite Hh in HR1, Hobs.
+  cbn [fst snd] in HR1, Hobs.
+  destruct added; [discriminate|]. split; [reflexivity|exact HR1].
+Qed.
+
+Ltac dcase H :=
+  destruct H as [(A1 & A2 & A3 & A4)|
+                 [(u & u' & so & B1 & B2 & B3 & B4 & B5 & B6 & B7 & B8 & B9 & B10 & B11 & B12 & B13)|
+                  (C1 & C2 & C3 & C4 & s1 & C5 & C6 & C7 & C8 & C9)]].
+
+Definition src_tr (s : src) : bool := match s with SUntrusted => false | _ => true end.
+Definition src_sf (s : src) : bool := match s with SLocal => true | _ => false end.
+
+Lemma lookup_seen_ext m m' x : m_seen m' = m_seen m -> lookup_seen m' x = lookup_seen m x.
+Proof. unfold lookup_seen. intros ->. reflexivity. Qed.
+
+Lemma tx_processed n m t body rel src :
+  Inv n m -> OTx t body rel src ∈ all ->
+  (match src with STrusted => m_insync m | _ => true end) = true ->
+  let r := process_unconfirmed n t body rel (src_tr src) (src_sf src) in
+  exists m', monitor_step dl m (OTx t body rel src) (OK :: enc_events (snd r)) = (0, m') /\ Inv (fst r) m'.
+Proof.
+  intros [HS HU] Ho Hproc r. subst r.
+  rewrite monitor_step_events by reflexivity. cbv zeta.
+  assert (HT : (t, body, rel) ∈ T) by (apply (mentions_T _ _ Ho); left).
+  set (tr := src_tr src). set (sf := src_sf src).
+  destruct (held (m_pool m) t) eqn:Hheld.
+  { (* the body is already held: nothing happens *)
+    destruct (pu_held n (m_pool m) t body rel tr sf (vu_R _ _ HU) Hheld) as [Hpu HR1].
+    pose proof (add_tx_facts (mp n) (now n) t body tr) as Hfacts. cbv zeta in Hfacts.
+    destruct Hfacts as [_ Htrust].
+    rewrite Hpu. cbn [fst snd map]. cbn [first_bad fold_left]. rewrite !Z.eqb_refl. cbn [negb].
+    unfold tx_step. rewrite Hproc, Hheld. cbn [negb fold_left].
+    eexists. split; [reflexivity|].
+    set (m1 := fst (add_transaction (mp n) (now n) t body tr)) in *.
+    split.
+    - eapply InvS_frame; [exact HS|reflexivity|reflexivity|]. repeat split.
+    - destruct HU. split; cbn; try assumption.
+      + intros t' u H1 H2. destruct src; try (apply add_z_elem; left); eapply vu_VCH0; eauto.
+      + intros t' H. rewrite Htrust in H. destruct (decide (t' = t)) as [->|Hne].
+        * destruct src; cbn in H; rewrite ?orb_false_r in H; try (apply add_z_elem; right; reflexivity).
+          apply vu_VCH3, H.
+        * destruct src; try (apply add_z_elem; left); apply vu_VCH3, H.
+      + intros t' H.
+        assert (Hmono : forall x, is_trusted (mp n) x = true -> is_trusted m1 x = true).
+        { intros x Hx. rewrite Htrust. destruct (decide (x = t)) as [->|Hne]; [rewrite Hx; reflexivity|exact Hx]. }
+        assert (Hold : t' ∈ m_vnow m -> is_trusted m1 t' = true \/
+                  (exists u, unconf n !! t' = Some u /\ u_trusted u = true) \/
+                  (exists s, states n !! t' = Some s /\ (s_unsafe s = true \/ is_Some (s_proof s))) \/ ~ relT t').
+        { intros Hin. destruct (vu_VNOW0 t' Hin) as [H'|H']; [left; apply Hmono, H'|right; exact H']. }
+        destruct src; cbn in H; try (apply Hold, H).
+        * apply add_z_elem in H. destruct H as [H| ->]; [apply Hold, H|]. left. rewrite Htrust.
+          rewrite decide_True by reflexivity. apply orb_true_r.
+        * apply add_z_elem in H. destruct H as [H| ->]; [apply Hold, H|]. left. rewrite Htrust.
+          rewrite decide_True by reflexivity. apply orb_true_r. }
+  pose proof (pu_spec n m t body rel tr sf (conj HS HU) HT Hheld) as Hspec. cbv zeta in Hspec.
+  destruct Hspec as (n' & evs & Hpu & HR' & Htrust & Hmisc & HE & Hunc & Hcase & Hev1 & Hev2 & Hetx).
+  rewrite Hpu. cbn [fst snd]. clear Hpu.
+  set (cfs := conflicts_of (m_pool m) t body) in *.
+  set (cs := conflicting_held (m_pool m) t body).
+  assert (Hcs : forall x, x ∈ cs <-> x ∈ cfs) by (intros x; apply conflicting_held_conflicts_of).
+  assert (Hz : (zlen cs =? 0) = (zlen cfs =? 0)).
+  { apply zlen0_same; intros x Hx; exists x; apply Hcs; exact Hx. }
+  set (cn := negb (zlen cfs =? 0)) in *.
+  destruct Hmisc as (Hch & Hsy & Hnow & Hdl).
+  assert (Hun' : forall x u', x <> t -> unconf n' !! x = Some u' ->
+     exists u, unconf n !! x = Some u /\ u_time u' = u_time u /\ u_trusted u' = u_trusted u /\
+       u_safe u' = u_safe u /\
+       ((x ∈ cfs /\ u_unsafe u' = true) \/ (x ∉ cfs /\ u' = u))).
+  { intros x u' Hne Hu'. rewrite (Hunc x Hne) in Hu'. destruct (bool_decide (x ∈ cfs)) eqn:Eb.
+    - apply bool_decide_eq_true in Eb. destruct (unconf n !! x) as [u|]; [|discriminate].
+      cbn in Hu'. inversion Hu'. subst u'. exists u. cbn. auto 10.
+    - apply bool_decide_eq_false in Eb. exists u'. auto 10. }
+  assert (Hdom : forall x, x <> t -> (is_Some (unconf n' !! x) <-> is_Some (unconf n !! x))).
+  { intros x Hne. rewrite (Hunc x Hne). destruct (bool_decide (x ∈ cfs)); [|reflexivity].
+    rewrite fmap_is_Some. reflexivity. }
+  assert (Hprf : forall x s, tev_in evs x s -> s_proof s = None).
+  { intros x s H. destruct H as [H|H].
+    - destruct (x_new _ _ _ _ HE x s H) as (_ & _ & [Hp|(b & _ & [])]). exact Hp.
+    - destruct (x_upd _ _ _ _ HE x s H) as (so & Hso & _ & _ & _ & [Hp|(b & _ & [])]).
+      rewrite Hp. destruct (decide (x = t)) as [->|Hne].
+      + destruct Hcase as [(_ & _ & Hk & _)|[(u & u' & so' & _ & _ & Hso' & Hpo & _)|(_ & Hnone & _)]].
+        * destruct Hk. apply tkeys_elem. exists s. right. exact H.
+        * congruence.
+        * congruence.
+      + destruct (Hev1 x s (or_intror H) Hne) as (_ & Hu & _).
+        destruct (vu_US _ _ HU x Hu) as (so' & Hso' & Hpo). congruence. }
+  assert (Hust : forall x s, tev_in evs x s -> ust s = true).
+  { intros x s H. apply ust_None. eapply Hprf; eauto. }
+  (* the checks on the notifications *)
+  assert (Hbad : first_bad dl m (OTx t body rel src) (map ev_of evs) = 0).
+  { apply (gen_checks noF n m (states n')); [exact HS|exact HE| |].
+    - intros x s H. assert (x = t) by (eapply Hetx; eauto). subst x.
+      destruct Hcase as [(_ & _ & Hk & _)|[(u & u' & so & _ & _ & _ & _ & _ & _ & _ & _ & _ & _ & _ & _ & Hno)|
+                         (_ & _ & Hrel & _ & s1 & Hs1 & Hp1 & Ho1 & Hsafe1 & Hun1)]].
+      + destruct Hk. apply tkeys_elem. exists s. left. exact H.
+      + destruct (Hno s H).
+      + assert (s = s1) by (eapply Ext_unique; [exact HE|left; exact H|left; exact Hs1]). subst s1 rel.
+        exists body. cbn [op_tx_info]. rewrite Z.eqb_refl. split; [reflexivity|]. split; [exact Ho1|].
+        destruct src; [ | |exact I]; rewrite Hsafe1; reflexivity.
+    - intros x s H Hsafe Hust'. destruct (decide (x = t)) as [->|Hne].
+      + destruct Hcase as [(_ & _ & Hk & _)|[(u & u' & so & B1 & B2 & B3 & B4 & B5 & B6 & B7 & B8 & B9 & B10 & B11 & B12 & B13)|
+                           (_ & Hnone & _)]].
+        * destruct Hk. apply tkeys_elem. exists s. right. exact H.
+        * destruct (B11 s (or_intror H)) as [[_ ->]|(_ & Esf & Eus & _ & ->)]; [discriminate Hsafe|].
+          split.
+          -- intros Hin. rewrite (vu_SAFE1 _ _ HU t u Hin B1) in Eus. discriminate.
+          -- left. subst sf. destruct src; try discriminate Esf. cbn. rewrite Z.eqb_refl. apply orb_true_r.
+        * destruct (x_upd _ _ _ _ HE t s H) as (so & Hso & _). congruence.
+      + destruct (Hev1 x s (or_intror H) Hne) as (_ & _ & _ & _ & Hns). congruence. }
+  rewrite Hbad. cbn [Z.eqb negb]. rewrite Z.eqb_refl.
+  unfold tx_step. rewrite Hproc. cbn [negb]. rewrite Hheld. fold cs.
+  match goal with |- context [if ?c then 141 else _] => assert (Hb1 : c = false) end.
+  { apply has_ev_false_map. intros e He. destruct e as [x s|x s|h b]; cbn [ev_of e_kind e_t e_unsafe Z.eqb Pos.eqb andb]; try reflexivity.
+    destruct (x =? t) eqn:Ext'; [|reflexivity]. apply Z.eqb_eq in Ext'. subst x. cbn [andb].
+    rewrite Hz. fold cn.
+    destruct Hcase as [(_ & _ & Hk & _)|[(u & u' & so & _ & _ & _ & _ & _ & _ & _ & _ & _ & _ & _ & _ & Hno)|
+                       (_ & _ & Hrel & _ & s1 & Hs1 & Hp1 & Ho1 & Hsafe1 & Hun1)]].
+    - destruct Hk. apply tkeys_elem. exists s. left. exact He.
+    - destruct (Hno s He).
+    - assert (s = s1) by (eapply Ext_unique; [exact HE|left; exact He|left; exact Hs1]). subst s1.
+      rewrite Hun1. destruct cn; reflexivity. }
+  rewrite Hb1.
+  match goal with |- context [if ?c then 142 else _] => assert (Hb2 : c = false) end.
+  { apply existsb_false_iff. intros c Hc. destruct (mem c (m_live m)) eqn:El; [|reflexivity]. cbn [andb].
+    apply negb_false_iff. apply mem_elem in El. apply (vu_L _ _ HU) in El. apply Hcs in Hc.
+    destruct (Hev2 c Hc El) as (s & Hs & Hus). apply has_ev_map. exists (EUpdate c s).
+    split; [exact Hs|]. cbn. rewrite Z.eqb_refl, Hus. reflexivity. }
+  rewrite Hb2.
+  match goal with |- context [if ?c then 143 else _] => assert (Hb3 : c = false) end.
+  { destruct rel; [|reflexivity]. destruct (mem t (m_delivered m)) eqn:Ed; [reflexivity|]. cbn [andb negb].
+    apply negb_false_iff. apply mem_false in Ed.
+    assert (Hnone : states n !! t = None).
+    { destruct (states n !! t) eqn:E; [|reflexivity]. destruct Ed. apply (vs_D _ _ HS). eauto. }
+    destruct Hcase as [(A1 & A2 & A3 & [A4|(s & b & A4 & _)])|[(u & u' & so & B1 & B2 & B3 & _)|
+                       (C1 & C2 & C3 & C4 & s1 & C5 & _)]]; try congruence.
+    apply has_ev_map. exists (ETx t s1). split; [exact C5|]. cbn. rewrite Z.eqb_refl. reflexivity. }
+  rewrite Hb3.
+  match goal with |- context [if ?c then 144 else _] => assert (Hb4 : c = false) end.
+  { destruct (mem t (m_live m)) eqn:El; [|reflexivity]. rewrite Hz. fold cn. destruct cn eqn:Ecn; [|reflexivity].
+    cbn [andb negb]. apply negb_false_iff. apply mem_elem, (vu_L _ _ HU) in El. destruct El as (u0 & Hu0).
+    destruct Hcase as [(A1 & _)|[(u & u' & so & B1 & B2 & B3 & B4 & B5 & B6 & B7 & B8 & B9 & B10 & _)|
+                       (C1 & _)]]; try congruence.
+    apply has_ev_map. exists (EUpdate t (mk_unsafe_s so)). split; [apply B10; reflexivity|].
+    cbn. rewrite Z.eqb_refl. reflexivity. }
+  rewrite Hb4.
+  match goal with |- context [fold_left note_event (map ev_of evs) ?mm] => set (m1 := mm) end.
+  fold (notes m1 evs). eexists. split; [reflexivity|].
+  destruct (notes_frame m1 evs) as (N1 & N2 & N3 & N4 & N5 & N6 & N7 & N8 & N9). cbv zeta in *.
+  assert (Hdeliv : has_ev (map ev_of evs) (fun e => (e_kind e =? 1) && (e_t e =? t)) = true <-> exists s, ETx t s ∈ evs).
+  { rewrite has_ev_map. split.
+    - intros (e & He & Hf). destruct e as [x s|x s|h b]; cbn in Hf; try discriminate.
+      apply Z.eqb_eq in Hf. subst x. eauto.
+    - intros (s & Hs). exists (ETx t s). split; [exact Hs|]. cbn. rewrite Z.eqb_refl. reflexivity. }
+  split.
+  - apply (gen_states noF n m n' m1 evs); try assumption.
+    + repeat split.
+    + rewrite Hch. auto.
+    + rewrite Hch. apply (vs_chain0 _ _ HS).
+    + intros x s H. assert (x = t) by (eapply Hetx; eauto). subst x.
+      destruct Hcase as [(_ & _ & Hk & _)|[(u & u' & so & _ & _ & _ & _ & _ & _ & _ & _ & _ & _ & _ & _ & Hno)|
+                         (_ & _ & Hrel & _)]].
+      * destruct Hk. apply tkeys_elem. exists s. left. exact H.
+      * destruct (Hno s H).
+      * subst rel. exists body. exact HT.
+    + intros x s b _ _ [].
+  - assert (Hpool : forall x b, (x, b) ∈ m_pool (notes m1 evs) -> (x, b) ∈ m_pool m \/ (x = t /\ b = body)).
+    { rewrite N1. unfold m1. cbn [m_pool]. intros x b Hin. destruct (zlen body =? 0); [left; exact Hin|].
+      apply elem_of_app in Hin. destruct Hin as [Hin|Hin]; [left; exact Hin|].
+      apply elem_of_list_singleton in Hin. inversion Hin. auto. }
+    assert (Hold : forall x, x ∈ m_vouched m -> x ∈ m_vouched m1).
+    { intros x H. unfold m1. cbn [m_vouched]. destruct src; rewrite ?add_z_elem; auto. }
+    assert (Hnewv : tr = true -> t ∈ m_vouched m1).
+    { unfold m1, tr. cbn [m_vouched]. destruct src; cbn; intros; try discriminate; apply add_z_elem; auto. }
+    assert (Hkeep : forall x u0, unconf n !! x = Some u0 -> u_trusted u0 = true ->
+               exists u2, unconf n' !! x = Some u2 /\ u_trusted u2 = true).
+    { intros x u0 Hu0 H. destruct (decide (x = t)) as [->|Hne].
+      - dcase Hcase; try congruence. exists u'. split; [exact B2|]. rewrite B7.
+        assert (u0 = u) by congruence. subst u0. rewrite H. reflexivity.
+      - assert (Hs' : is_Some (unconf n' !! x)) by (apply Hdom; eauto). destruct Hs' as (u2 & Hu2).
+        destruct (Hun' x u2 Hne Hu2) as (u3 & Hu3 & _ & Htt & _). exists u2. split; [exact Hu2|]. congruence. }
+    split.
+    + rewrite N5, Hnow. apply (vu_clock _ _ HU).
+    + rewrite N6, Hsy. apply (vu_sync _ _ HU).
+    + rewrite N7, Hch. apply (vu_chain _ _ HU).
+    + rewrite Hdl. apply (vu_delay _ _ HU).
+    + rewrite N1. exact HR'.
+    + intros x b Hin. destruct (Hpool x b Hin) as [H|[-> ->]]; [apply (vu_poolT _ _ HU), H|eauto].
+    + intros x b Hin Hrel. destruct (Hpool x b Hin) as [H|[-> ->]].
+      * eapply Ext_some; [exact HE|]. eapply vu_poolS; eauto.
+      * assert (rel = true) by (eapply relT_rel; eauto). dcase Hcase.
+        -- destruct A4 as [A4|(s & b & A4 & _)]; [congruence|]. eapply Ext_some; [exact HE|]. eauto.
+        -- eapply Ext_some; [exact HE|]. eauto.
+        -- rewrite (x_in _ _ _ _ HE t s1 (or_introl C5)). eauto.
+    + intros x. rewrite (notes_live_add m1 evs x Hust). change (m_live m1) with (m_live m). rewrite (vu_L _ _ HU).
+      destruct (decide (x = t)) as [->|Hne].
+      * dcase Hcase.
+        -- rewrite A1, A2. split; [|intros (? & ?); discriminate]. intros [H|(s & H)]; [exact H|].
+           destruct A3. apply tkeys_elem. exists s. left. exact H.
+        -- rewrite B1, B2. split; eauto.
+        -- rewrite C4. split; [eauto|]. intros _. right. eauto.
+      * rewrite (Hdom x Hne). split; [|auto]. intros [H|(s & H)]; [exact H|]. destruct Hne. eapply Hetx; eauto.
+    + intros x Hx.
+      assert (Hgen : is_Some (unconf n !! x) -> exists s, states n' !! x = Some s /\ s_proof s = None).
+      { intros Hu. destruct (vu_US _ _ HU x Hu) as (so0 & Hso0 & Hp0).
+        destruct (Ext_sticky _ _ _ _ x so0 HE Hso0) as (s & Hs & _).
+        exists s. split; [exact Hs|].
+        destruct (Ext_back _ _ _ _ x s HE Hs) as [H|[_ H]]; [eapply Hprf; eauto|congruence]. }
+      destruct (decide (x = t)) as [->|Hne]; [|apply Hgen, Hdom; assumption].
+      dcase Hcase.
+      * rewrite A2 in Hx. destruct Hx as (? & ?). discriminate.
+      * apply Hgen. eauto.
+      * exists s1. split; [apply (x_in _ _ _ _ HE); left; exact C5|exact C6].
+    + intros x s Hs Hp. destruct (Ext_back _ _ _ _ x s HE Hs) as [H|[Hk H]].
+      * destruct (decide (x = t)) as [->|Hne].
+        -- dcase Hcase; [destruct A3; apply tkeys_elem; eauto|rewrite B2; eauto|rewrite C4; eauto].
+        -- apply Hdom; [exact Hne|]. apply (Hev1 x s H Hne).
+      * pose proof (vu_SU _ _ HU x s H Hp) as Hu.
+        destruct (decide (x = t)) as [->|Hne]; [|apply Hdom; assumption].
+        dcase Hcase; [rewrite A1 in Hu; destruct Hu as (? & ?); discriminate|rewrite B2; eauto|rewrite C4; eauto].
+    + intros x u0 Hu0. destruct (decide (x = t)) as [->|Hne].
+      * dcase Hcase.
+        -- congruence.
+        -- assert (u0 = u') by congruence. subst u0. rewrite B6.
+           rewrite notes_seen_old; [rewrite (lookup_seen_ext m m1) by reflexivity; eapply vu_SEEN; eauto|].
+           intros s H. destruct (B13 s H).
+        -- rewrite C4 in Hu0. inversion Hu0. subst u0. cbn [u_time].
+           rewrite notes_seen_new; [|exists s1; split; [exact C5|apply ust_None, C6]].
+           change (m_clock m1) with (m_clock m). rewrite (vu_clock _ _ HU). reflexivity.
+      * destruct (Hun' x u0 Hne Hu0) as (u1 & Hu1 & Ht & _). rewrite Ht.
+        rewrite notes_seen_old; [rewrite (lookup_seen_ext m m1) by reflexivity; eapply vu_SEEN; eauto|].
+        intros s H. destruct Hne. eapply Hetx; eauto.
+    + intros x u0 Hin Hu0. apply notes_safe in Hin. change (m_safe m1) with (m_safe m) in Hin.
+      destruct (decide (x = t)) as [->|Hne].
+      * dcase Hcase.
+        -- congruence.
+        -- assert (u0 = u') by congruence. subst u0. rewrite B8. destruct Hin as [Hin|(s & Hs & Hss)].
+           ++ rewrite (vu_SAFE1 _ _ HU t u Hin B1). reflexivity.
+           ++ destruct (B11 s Hs) as [[_ ->]|(_ & Esf & _)]; [discriminate Hss|rewrite Esf; apply orb_true_r].
+        -- rewrite C4 in Hu0. inversion Hu0. subst u0. cbn [u_safe]. destruct Hin as [Hin|(s & Hs & Hss)].
+           ++ apply (vs_SAFED _ _ HS) in Hin. rewrite C2 in Hin. destruct Hin as (? & ?); discriminate.
+           ++ assert (s = s1) by (eapply Ext_unique; [exact HE|exact Hs|left; exact C5]). subst s.
+              rewrite C8 in Hss. apply andb_true_iff in Hss. destruct Hss as [Hss _].
+              apply andb_true_iff in Hss. apply Hss.
+      * destruct (Hun' x u0 Hne Hu0) as (u1 & Hu1 & _ & _ & Hsf & _). rewrite Hsf.
+        destruct Hin as [Hin|(s & Hs & Hss)].
+        -- eapply vu_SAFE1; eauto.
+        -- destruct (Hev1 x s Hs Hne) as (_ & _ & _ & _ & Hns). rewrite Hns in Hss. discriminate.
+    + intros x u0 Hu0 Hsafe. destruct (decide (x = t)) as [->|Hne].
+      * dcase Hcase.
+        -- congruence.
+        -- assert (u0 = u') by congruence. subst u0. rewrite B8 in Hsafe.
+           destruct (u_safe u) eqn:Eus.
+           ++ destruct (vu_SAFE2 _ _ HU t u B1 Eus) as [H|H];
+                [left; apply notes_safe_mono, H|right; apply notes_unsafe_mono, H].
+           ++ cbn [orb] in Hsafe. destruct cn eqn:Ecn.
+              ** right. apply notes_unsafe. right. exists (mk_unsafe_s so).
+                 split; [right; apply B10; reflexivity|reflexivity].
+              ** destruct (s_safe so || s_unsafe so || s_cancel so) eqn:Efl.
+                 --- apply orb_true_iff in Efl.
+                     destruct Efl as [Efl|Efl]; [apply orb_true_iff in Efl; destruct Efl as [Efl|Efl]|].
+                     +++ left. apply notes_safe_mono. apply (vs_SAFE3 _ _ HS t so B3 Efl B4).
+                     +++ right. apply notes_unsafe_mono. apply (vs_UNS _ _ HS). eauto.
+                     +++ right. apply notes_unsafe_mono. apply (vs_UNS _ _ HS). exists so. split; [exact B3|].
+                         apply (vs_FL _ _ HS t so B3), Efl.
+                 --- left. apply notes_safe. right. exists (mk_safe_s so). split; [right; apply B12; auto|].
+                     cbn. apply ust_None. exact B4.
+        -- rewrite C4 in Hu0. inversion Hu0. subst u0. cbn [u_safe] in Hsafe. destruct cn eqn:Ecn.
+           ++ right. apply notes_unsafe. right. exists s1. split; [left; exact C5|]. rewrite C9. reflexivity.
+           ++ left. apply notes_safe. right. exists s1. split; [left; exact C5|].
+              rewrite C8, Hsafe, (ust_None _ C6). reflexivity.
+      * destruct (Hun' x u0 Hne Hu0) as (u1 & Hu1 & _ & _ & Hsf & _). rewrite Hsf in Hsafe.
+        destruct (vu_SAFE2 _ _ HU x u1 Hu1 Hsafe) as [H|H];
+          [left; apply notes_safe_mono, H|right; apply notes_unsafe_mono, H].
+    + rewrite N2. intros x u0 Hu0 Htr0. destruct (decide (x = t)) as [->|Hne].
+      * dcase Hcase.
+        -- congruence.
+        -- assert (u0 = u') by congruence. subst u0. rewrite B7 in Htr0. apply orb_true_iff in Htr0.
+           destruct Htr0 as [H|H]; [apply Hold; eapply vu_VCH; eauto|apply Hnewv, H].
+        -- rewrite C4 in Hu0. inversion Hu0. subst u0. apply Hnewv. exact Htr0.
+      * destruct (Hun' x u0 Hne Hu0) as (u1 & Hu1 & _ & Htt & _). rewrite Htt in Htr0.
+        apply Hold. eapply vu_VCH; eauto.
+    + rewrite N2. intros x H. rewrite Htrust in H. destruct (decide (x = t)) as [->|Hne].
+      * apply orb_true_iff in H. destruct H as [H|H]; [apply Hold, (vu_VCH2 _ _ HU), H|apply Hnewv, H].
+      * apply Hold, (vu_VCH2 _ _ HU), H.
+    + rewrite N8. intros x Hin.
+      assert (Hmono : forall y, is_trusted (mp n) y = true -> is_trusted (mp n') y = true).
+      { intros y Hy. rewrite Htrust. destruct (decide (y = t)) as [->|?]; [rewrite Hy; reflexivity|exact Hy]. }
+      assert (Hsplit : x ∈ m_vnow m \/ (x = t /\ tr = true)).
+      { unfold m1 in Hin. cbn [m_vnow] in Hin. unfold tr.
+        destruct src; cbn; rewrite ?add_z_elem in Hin; [|left; exact Hin|]; (destruct Hin as [Hin| ->]; auto). }
+      destruct Hsplit as [Hold'|[-> Htr']].
+      * destruct (vu_VNOW _ _ HU x Hold') as [H|[(u0 & Hu0 & H)|[(s & Hs & H)|H]]].
+        -- left. apply Hmono, H.
+        -- right. left. eapply Hkeep; eauto.
+        -- right. right. left. destruct (Ext_sticky _ _ _ _ x s HE Hs) as (s' & Hs' & K1 & K2 & _).
+           exists s'. split; [exact Hs'|]. destruct H; auto.
+        -- right. right. right. exact H.
+      * left. rewrite Htrust, decide_True by reflexivity. rewrite Htr'. apply orb_true_r.
+    + rewrite N9. intros x Hin.
+      assert (Hsplit : x ∈ m_vpersist m \/ (x = t /\ tr = true /\ exists s, ETx t s ∈ evs)).
+      { unfold m1 in Hin. cbn [m_vpersist] in Hin. unfold tr.
+        destruct src; cbn; [|left; exact Hin|];
+          (match type of Hin with context [if ?c then _ else _] => destruct c eqn:Ehe end; [|left; exact Hin];
+           apply add_z_elem in Hin; destruct Hin as [Hin| ->]; [left; exact Hin|];
+           right; split; [reflexivity|split; [reflexivity|apply Hdeliv; reflexivity]]). }
+      destruct Hsplit as [Hold'|(-> & Htr' & s & Hs)].
+      * destruct (vu_VPER _ _ HU x Hold') as [(u0 & Hu0 & H)|(s & Hs & H)].
+        -- left. eapply Hkeep; eauto.
+        -- right. destruct (Ext_sticky _ _ _ _ x s HE Hs) as (s' & Hs' & K1 & K2 & _). eauto.
+      * left. dcase Hcase.
+        -- destruct A3. apply tkeys_elem. exists s. left. exact Hs.
+        -- destruct (B13 s Hs).
+        -- eexists. split; [exact C4|]. exact Htr'.
+    + intros x u0 Hu0 Hun0. destruct (decide (x = t)) as [->|Hne].
+      * dcase Hcase.
+        -- congruence.
+        -- assert (u0 = u') by congruence. subst u0. rewrite B9 in Hun0. apply orb_true_iff in Hun0.
+           destruct Hun0 as [H|H].
+           ++ apply notes_unsafe_mono. apply (vu_UUNS _ _ HU t u B1 H).
+           ++ apply notes_unsafe. right. exists (mk_unsafe_s so). split; [right; apply B10, H|reflexivity].
+        -- rewrite C4 in Hu0. inversion Hu0. subst u0. discriminate Hun0.
+      * destruct (Hun' x u0 Hne Hu0) as (u1 & Hu1 & _ & _ & _ & [[Hc _]|[_ Heq]]).
+        -- destruct (Hev2 x Hc) as (s & Hs & Hus); [eauto|]. apply notes_unsafe. right. exists s.
+           split; [right; exact Hs|]. rewrite Hus. reflexivity.
+        -- subst u0. apply notes_unsafe_mono. apply (vu_UUNS _ _ HU x u1 Hu1 Hun0).
+    + rewrite N3. intros x Hin Hrel.
+      assert (Hsplit : x ∈ m_conflicted m \/ (cn = true /\ (x = t \/ x ∈ cfs))).
+      { unfold m1 in Hin. cbn [m_conflicted] in Hin. rewrite Hz in Hin.
+        assert (Ez : (zlen cfs =? 0) = negb cn) by (unfold cn; rewrite negb_involutive; reflexivity).
+        rewrite Ez in Hin. destruct cn; cbn [negb] in Hin; [|left; exact Hin].
+        apply fold_add_z_elem in Hin. rewrite add_z_elem, Hcs in Hin. tauto. }
+      destruct Hsplit as [Hold'|(Ecn & [->|Hc])].
+      * destruct (vu_CONF _ _ HU x Hold' Hrel) as (s & Hs & H).
+        destruct (Ext_sticky _ _ _ _ x s HE Hs) as (s' & Hs' & K1 & K2 & _).
+        exists s'. split; [exact Hs'|]. destruct H; auto.
+      * assert (Hr : rel = true) by (eapply relT_rel; eauto). dcase Hcase.
+        -- destruct A4 as [A4|(s & b & A4 & A5)]; [congruence|].
+           destruct (Ext_sticky _ _ _ _ t s HE A4) as (s' & Hs' & _ & K2 & _).
+           exists s'. split; [exact Hs'|]. right. apply K2. rewrite A5. eauto.
+        -- exists (mk_unsafe_s so). split; [apply (x_in _ _ _ _ HE); right; apply B10, Ecn|left; reflexivity].
+        -- exists s1. split; [apply (x_in _ _ _ _ HE); left; exact C5|left]. rewrite C9. exact Ecn.
+      * pose proof Hc as Hc'. apply conflicts_of_elem in Hc'. destruct Hc' as (Hne & b' & Hb' & _).
+        destruct (vu_poolS _ _ HU x b' Hb' Hrel) as (so0 & Hso0).
+        destruct (unconf n !! x) as [u0|] eqn:Eu0.
+        -- destruct (Hev2 x Hc) as (s & Hs & Hus); [eauto|].
+           exists s. split; [apply (x_in _ _ _ _ HE); right; exact Hs|left; exact Hus].
+        -- destruct (Ext_sticky _ _ _ _ x so0 HE Hso0) as (s' & Hs' & _ & K2 & _).
+           exists s'. split; [exact Hs'|]. right. apply K2.
+           destruct (s_proof so0) eqn:Ep; [eauto|].
+           destruct (vu_SU _ _ HU x so0 Hso0 Ep) as (? & ?). congruence.
+Qed.
+
+Lemma step_tx n m t body rel src : Inv n m -> OTx t body rel src ∈ all ->
+  exists m', monitor_step dl m (OTx t body rel src) (snd (step n (OTx t body rel src))) = (0, m') /\
+             Inv (fst (step n (OTx t body rel src))) m'.
+Proof.
+  intros HI Ho. cbn [step]. destruct src.
+  - destruct (insync n) eqn:Esy.
+    + pose proof (tx_processed n m t body rel STrusted HI Ho) as H. cbv zeta in H. cbn [src_tr src_sf] in H.
+      destruct (process_unconfirmed n t body rel true false) as [n1 evs]. cbn [fst snd] in *.
+      apply H. rewrite (vu_sync _ _ (proj2 HI)). exact Esy.
+    + cbn [fst snd]. change [OK] with (OK :: enc_events []).
+      rewrite monitor_step_events by reflexivity. cbv zeta. cbn [map first_bad fold_left Z.eqb negb].
+      rewrite Z.eqb_refl. unfold tx_step. rewrite (vu_sync _ _ (proj2 HI)), Esy. cbn.
+      exists m. split; [reflexivity|exact HI].
+  - pose proof (tx_processed n m t body rel SUntrusted HI Ho eq_refl) as H. cbv zeta in H. cbn [src_tr src_sf] in H.
+    destruct (process_unconfirmed n t body rel false false) as [n1 evs]. cbn [fst snd] in *. exact H.
+  - pose proof (tx_processed n m t body rel SLocal HI Ho eq_refl) as H. cbv zeta in H. cbn [src_tr src_sf] in H.
+    destruct (process_unconfirmed n t body rel true true) as [n1 evs]. cbn [fst snd] in *. exact H.
+Qed.
+
+(* ---------------------------------------------------------------------------------------- *)
+(* a block *)
+Lemma step_block n m b prev txs valid : Inv n m -> OBlock b prev txs valid ∈ all ->
+  exists m', monitor_step dl m (OBlock b prev txs valid) (snd (process_block n b prev txs valid)) = (0, m') /\
+             Inv (fst (process_block n b prev txs valid)) m'.
+Proof.
+  intros [HS HU] Ho.
+  destruct (v_blk _ _ Hv b prev txs valid Ho) as [Hb0 Hpd]. destruct (pd_spec txs Hpd) as [Hndt Hdisj].
+  assert (Href : exists m', monitor_step dl m (OBlock b prev txs valid) [ERR] = (0, m') /\ Inv n m').
+  { change [ERR] with (ERR :: enc_events []). rewrite monitor_step_events by reflexivity. cbn.
+    exists m. split; [reflexivity|split; assumption]. }
+  unfold process_block.
+  destruct (in_chain n b) eqn:Eic; [exact Href|].
+  destruct (negb (default (-99) (last (chain n)) =? prev)); [exact Href|].
+  destruct (negb valid); [exact Href|]. clear Href.
+  assert (Hnb : b ∉ chain n) by (apply mem_false; exact Eic).
+  cbv zeta.
+  set (n0 := Node (mp n) (unconf n) (states n) (blocktxs n) (chain n ++ [b]) (insync n) (now n) (delay n)).
+  set (h := zlen (chain n0) - 1).
+  set (unc := sorted_keys (unconf n0)).
+  assert (Hblk : forall t body rel, (t, body, rel) ∈ txs -> (t, body, rel) ∈ T).
+  { intros t body rel Hin. apply (mentions_T _ _ Ho). exact Hin. }
+  assert (Hinb : forall t, t ∈ txids txs -> inblock t b).
+  { intros t Ht. exists prev, txs, valid. auto. }
+  assert (Hfresh : forall t s, t ∈ txids txs -> states n !! t = Some s -> s_proof s = None).
+  { intros t s Ht Hs. destruct (s_proof s) as [b'|] eqn:Ep; [|reflexivity].
+    destruct (vs_PRF _ _ HS t s b' Hs Ep) as [Hc (p2 & txs2 & v2 & Ho2 & Ht2)].
+    assert (b' = b) by (eapply (v_uniq _ _ Hv); eauto). subst b'. contradiction. }
+  assert (Hunc_elem : forall x, x ∈ unc <-> is_Some (unconf n !! x)).
+  { intros x. apply sorted_keys_elem. }
+  assert (Hnone : forall t, t ∈ txids txs -> t ∉ unc -> states n !! t = None).
+  { intros t Ht Hnu. destruct (states n !! t) as [s|] eqn:Es; [|reflexivity]. destruct Hnu.
+    apply Hunc_elem. apply (vu_SU _ _ HU t s Es). apply (Hfresh t s Ht Es). }
+  assert (Hcons : forall t body rel b', (t, body, rel) ∈ txs -> (t, b') ∈ m_pool m -> b' = body).
+  { intros t body rel b' Hin Hb'. destruct (vu_poolT _ _ HU t b' Hb') as (rel' & HT').
+    destruct (T_body _ _ _ _ _ HT' (Hblk _ _ _ Hin)) as [-> _]. reflexivity. }
+  assert (Hvnt : forall c, c ∈ blk_victims (m_pool m) txs -> c ∉ txids txs).
+  { intros c Hc Hct. apply blk_victims_elem in Hc. destruct Hc as (x & Hx & Hne & bc & Hbc & Hsh).
+    apply txids_elem in Hct. destruct Hct as (body' & rel' & Hy).
+    pose proof (Hcons _ _ _ _ Hy Hbc) as ->.
+    apply (Hdisj x (c, body', rel') Hx Hy); [cbn; congruence|exact Hsh]. }
+  destruct (block_txs_spec (fun b' => b' = b) (states n) h txs n0 unc [] [EHeaders h b] (m_pool m)) as
+    (n1 & unc1 & pend & evs1 & Hbt & Hun1 & Hmisc1 & HR1 & HE1 & Hst1 & Hst1' & Hunc1 & Hev1a & Hev1b & Hndp & Hp1 & Hp2).
+  { exact (vu_R _ _ HU). }
+  { exact Hcons. }
+  { exact Hvnt. }
+  { exact Hndt. }
+  { apply sorted_keys_NoDup. }
+  { intros t body Hin Hnu. apply held_false. intros b' Hb'.
+    assert (Hrel : relT t) by (exists body; apply Hblk; exact Hin).
+    destruct (vu_poolS _ _ HU t b' Hb' Hrel) as (s & Hs).
+    assert (Htt : t ∈ txids txs) by (apply txids_elem; eauto).
+    rewrite (Hnone t Htt Hnu) in Hs. discriminate. }
+  { intros c Hc. apply Hunc_elem in Hc. destruct (vu_US _ _ HU c Hc) as (s & Hs & _). cbn. eauto. }
+  { intros c bc _. cbn. apply not_elem_of_nil. }
+  { apply Ext_hdr. }
+  change ([] ++ pend) with pend in Hbt.
+  pose proof (block_txs_trusted h txs n0 unc [] [EHeaders h b] (m_pool m) _ (vu_R _ _ HU) Hcons Hbt) as Htrust.
+  cbn [fst mp] in Htrust.
+  rewrite Hbt.
+  destruct (block_notify_spec (fun b' => b' = b) (states n) b eq_refl pend Hndp n1 ([EHeaders h b] ++ evs1)) as
+    (n2 & evs2 & Hbn & Hmp2 & Hun2 & Hmisc2 & HE2 & Hev2a & Hev2b).
+  { intros t body nw sf Hin. destruct (Hp1 t body nw sf Hin) as (rel & Hin' & Hc).
+    assert (Htt : t ∈ txids txs) by (apply txids_elem; eauto).
+    assert (Hnk : t ∉ tkeys evs1).
+    { intros Hk. apply tkeys_elem in Hk. destruct Hk as (s & Hk). destruct (Hev1a t s Hk) as (Hv' & _).
+      exact (Hvnt t Hv' Htt). }
+    assert (Hnk' : t ∉ tkeys ([EHeaders h b] ++ evs1)).
+    { rewrite tkeys_app, not_elem_of_app. split; [cbn; apply not_elem_of_nil|exact Hnk]. }
+    split; [exact Hnk'|].
+    destruct nw.
+    - destruct Hc as [-> Hnu]. rewrite (x_out _ _ _ _ HE1 t Hnk'). apply Hnone; assumption.
+    - apply Hst1. cbn. apply Hunc_elem in Hc. destruct (vu_US _ _ HU t Hc) as (s & Hs & _). eauto. }
+  { exact HE1. }
+  rewrite Hbn. cbn [fst snd].
+  rewrite <- app_assoc in HE2 |- *.
+  set (E := evs1 ++ evs2) in *.
+  change ([EHeaders h b] ++ E) with (EHeaders h b :: E) in *.
+  set (nf := set_unconf n2 (restrict_unconf (unconf n2) unc1)).
+  assert (HEv : forall x s, tev_in (EHeaders h b :: E) x s <-> tev_in E x s).
+  { intros x s. unfold tev_in. rewrite !elem_of_cons.
+    split; [intros [[H|H]|[H|H]]; try discriminate; auto|tauto]. }
+  assert (Hcan : forall x s, tev_in evs1 x s ->
+            s_proof s = None /\ ust s = true /\ s_safe s = false /\ s_unsafe s = true /\ s_cancel s = true /\
+            x ∈ blk_victims (m_pool m) txs /\ x ∈ unc /\ x ∉ txids txs /\ EUpdate x s ∈ evs1).
+  { intros x s H. destruct (Hev1a x s H) as (K1 & K2 & K3 & K4 & K5 & K6 & so & Hso & Hp).
+    assert (Hpn : s_proof s = None).
+    { rewrite Hp. apply Hunc_elem in K2. destruct (vu_US _ _ HU x K2) as (so' & Hso' & Hp'). congruence. }
+    split; [exact Hpn|]. split; [apply ust_None, Hpn|]. auto 10 using Hvnt. }
+  assert (Hnot : forall x s, tev_in evs2 x s ->
+            s_proof s = Some b /\ ust s = false /\ s_depth s = 0 /\ x ∈ txids txs /\
+            exists body nw sf, (x, body, nw, sf) ∈ pend /\
+              (if nw : bool then ETx x s ∈ evs2 /\ outs_ok body (s_outs s) = true /\ (x, body, true) ∈ txs /\ x ∉ unc
+               else EUpdate x s ∈ evs2 /\ x ∈ unc)).
+  { intros x s H. destruct (Hev2a x s H) as (body & nw & sf & Hin & Hp & Hd & Hk).
+    destruct (Hp1 x body nw sf Hin) as (rel & Hin' & Hc).
+    split; [exact Hp|]. split; [apply (ust_Some s b Hp); lia|]. split; [exact Hd|].
+    split; [apply txids_elem; eauto|]. exists body, nw, sf. split; [exact Hin|].
+    destruct nw.
+    - destruct Hk as [Hk1 Hk2]. destruct Hc as [-> Hc]. auto.
+    - auto. }
+  assert (HEsplit : forall x s, tev_in E x s -> tev_in evs1 x s \/ tev_in evs2 x s).
+  { intros x s H. apply tev_in_app. exact H. }
+  assert (HE1in : forall e, e ∈ evs1 -> e ∈ EHeaders h b :: E).
+  { intros e He. right. unfold E. apply elem_of_app. left. exact He. }
+  assert (HE2in : forall e, e ∈ evs2 -> e ∈ EHeaders h b :: E).
+  { intros e He. right. unfold E. apply elem_of_app. right. exact He. }
+  destruct Hmisc1 as (Hch1 & Hsy1 & Hnow1 & Hdl1). destruct Hmisc2 as (Hch2 & Hsy2 & Hnow2 & Hdl2).
+  assert (Hchf : chain nf = chain n ++ [b]).
+  { subst nf. cbn [chain set_unconf]. rewrite Hch2, Hch1. reflexivity. }
+  (* the checks on the notifications *)
+  assert (Hbad : first_bad dl m (OBlock b prev txs valid) (map ev_of (EHeaders h b :: E)) = 0).
+  { apply (gen_checks (fun b' => b' = b) n m (states n2)); [exact HS|exact HE2| |].
+    - intros t s H.
+      destruct (x_new _ _ _ _ HE2 t s H) as (Hn & _).
+      assert (Hin : tev_in E t s) by (apply HEv; left; exact H).
+      destruct (HEsplit t s Hin) as [H1|H2].
+      + destruct (Hev1a t s H1) as (_ & _ & _ & _ & _ & _ & so & Hso & _). congruence.
+      + destruct (Hnot t s H2) as (_ & _ & _ & _ & body & nw & sf & Hpin & Hk). destruct nw.
+        * destruct Hk as (_ & Hok & Htx & _). exists body. cbn [op_tx_info].
+          rewrite (find_tx txs t body true Hndt Htx). split; [reflexivity|]. split; [exact Hok|exact I].
+        * destruct Hk as [Hk _]. destruct (x_upd _ _ _ _ HE2 t s) as (so & Hso & _); [|congruence].
+          apply HE2in, Hk.
+    - intros x s H Hsafe Hust'.
+      assert (Hin : tev_in E x s) by (apply HEv; right; exact H).
+      destruct (HEsplit x s Hin) as [H1|H2].
+      + destruct (Hcan x s H1) as (_ & _ & Hns & _). congruence.
+      + destruct (Hnot x s H2) as (_ & Hnu & _). congruence. }
+  rewrite monitor_step_events by reflexivity. cbv zeta. rewrite Hbad. cbn [Z.eqb negb]. rewrite Z.eqb_refl.
+  assert (Hh : h = zlen (m_chain m)).
+  { rewrite (vu_chain _ _ HU). subst h n0. cbn [chain]. unfold zlen. rewrite app_length. cbn [length]. lia. }
+  destruct (block_step_ok m b txs (ev_of (EHeaders h b)) (map ev_of E)) as (cf' & Hbs & Hcf).
+  { cbn [ev_of e_kind e_t e_proof]. rewrite <- Hh, !Z.eqb_refl. reflexivity. }
+  { intros c Hc Hl. change (ev_of (EHeaders h b) :: map ev_of E) with (map ev_of (EHeaders h b :: E)).
+    apply (vu_L _ _ HU) in Hl. apply Hunc_elem in Hl. destruct (Hev1b c Hc Hl) as (s & Hs).
+    destruct (Hcan c s (or_intror Hs)) as (_ & _ & _ & Hu & Hcc & _).
+    apply (count_cancel_one c s); [exact (x_nodup _ _ _ _ HE2)|apply HE1in, Hs|exact Hcc|exact Hu]. }
+  { intros t body rel Hin ->. change (ev_of (EHeaders h b) :: map ev_of E) with (map ev_of (EHeaders h b :: E)).
+    pose proof (Hp2 t body true Hin) as Hp. destruct (bool_decide (t ∈ unc)) eqn:Eb.
+    - apply bool_decide_eq_true in Eb.
+      assert (Hd : mem t (m_delivered m) = true).
+      { apply mem_elem, (vs_D _ _ HS). apply Hunc_elem in Eb. destruct (vu_US _ _ HU t Eb) as (s & Hs & _). eauto. }
+      rewrite Hd. destruct (Hev2b t body false true Hp) as (s & Hps & Hds & Hk).
+      apply has_ev_map. exists (EUpdate t s). split; [apply HE2in, Hk|].
+      cbn [ev_of e_kind e_t e_proof e_depth]. rewrite Hps, Hds. cbn [pz]. rewrite !Z.eqb_refl. reflexivity.
+    - apply bool_decide_eq_false in Eb. destruct (Hp eq_refl) as (sf & Hsf).
+      assert (Hd : mem t (m_delivered m) = false).
+      { apply mem_false. intros Hd. apply (vs_D _ _ HS) in Hd.
+        rewrite (Hnone t) in Hd; [destruct Hd as (? & ?); discriminate|apply txids_elem; eauto|exact Eb]. }
+      rewrite Hd. destruct (Hev2b t body true sf Hsf) as (s & Hps & Hds & Hk).
+      apply has_ev_map. exists (ETx t s). split; [apply HE2in, Hk|].
+      cbn [ev_of e_kind e_t e_proof e_depth]. rewrite Hps, Hds. cbn [pz]. rewrite !Z.eqb_refl. reflexivity. }
+  cbn [map]. rewrite Hbs.
+  change (ev_of (EHeaders h b) :: map ev_of E) with (map ev_of (EHeaders h b :: E)).
+  match goal with |- context [fold_left note_event _ ?mm] => set (m1 := mm) end.
+  fold (notes m1 (EHeaders h b :: E)). eexists. split; [reflexivity|].
+  destruct (notes_frame m1 (EHeaders h b :: E)) as (N1 & N2 & N3 & N4 & N5 & N6 & N7 & N8 & N9). cbv zeta in *.
+  set (A := EHeaders h b :: E) in *.
+  assert (Hall : forall x s, tev_in A x s -> tev_in evs1 x s \/ tev_in evs2 x s).
+  { intros x s H. apply HEsplit, HEv, H. }
+  assert (HETx : forall t s, ETx t s ∈ A -> ust s = false /\ exists body, (t, body, true) ∈ txs).
+  { intros t s H. destruct (x_new _ _ _ _ HE2 t s H) as (Hn & _).
+    destruct (Hall t s (or_introl H)) as [H1|H2].
+    - destruct (Hev1a t s H1) as (_ & _ & _ & _ & _ & _ & so & Hso & _). congruence.
+    - destruct (Hnot t s H2) as (_ & Hu & _ & _ & body & nw & sf & Hpin & Hk). split; [exact Hu|]. destruct nw.
+      + destruct Hk as (_ & _ & Htx & _). eauto.
+      + destruct Hk as [Hk _]. destruct (x_upd _ _ _ _ HE2 t s) as (so & Hso & _); [|congruence].
+        apply HE2in, Hk. }
+  assert (Hunf : forall x u, unconf nf !! x = Some u <-> unconf n !! x = Some u /\ x ∉ txids txs).
+  { intros x u. subst nf. cbn [unconf set_unconf]. rewrite restrict_lookup, Hun2, Hun1, Hunc1, Hunc_elem.
+    change (unconf n0) with (unconf n). split.
+    - intros (H1 & H2 & H3). auto.
+    - intros (H1 & H3). split; [exact H1|]. split; [eauto|exact H3]. }
+  assert (Hpend_upd : forall x, x ∈ txids txs -> x ∈ unc -> exists s, EUpdate x s ∈ evs2 /\ s_proof s = Some b).
+  { intros x Hx Hu. apply txids_elem in Hx. destruct Hx as (body & rel & Hin).
+    pose proof (Hp2 x body rel Hin) as Hp. rewrite bool_decide_eq_true_2 in Hp by exact Hu.
+    destruct (Hev2b _ _ _ _ Hp) as (s & Hps & _ & Hk). eauto. }
+  assert (Hconf_tx : forall x, x ∈ txids txs -> relT x ->
+            exists s, states nf !! x = Some s /\ is_Some (s_proof s)).
+  { intros x Hx Hrel. apply txids_elem in Hx. destruct Hx as (body & rel & Hin).
+    assert (rel = true) by (eapply relT_rel; [exact Hrel|apply Hblk; exact Hin]). subst rel.
+    pose proof (Hp2 x body true Hin) as Hp. destruct (bool_decide (x ∈ unc)).
+    - destruct (Hev2b _ _ _ _ Hp) as (s & Hps & _ & Hk). exists s.
+      split; [apply (x_in _ _ _ _ HE2); right; apply HE2in, Hk|rewrite Hps; eauto].
+    - destruct (Hp eq_refl) as (sf & Hsf). destruct (Hev2b _ _ _ _ Hsf) as (s & Hps & _ & Hk). exists s.
+      split; [apply (x_in _ _ _ _ HE2); left; apply HE2in, Hk|rewrite Hps; eauto]. }
+  assert (Hvic : forall x, x ∈ blk_victims (m_pool m) txs -> relT x ->
+            exists s, states nf !! x = Some s /\ (s_unsafe s = true \/ is_Some (s_proof s))).
+  { intros x Hx Hrel. pose proof Hx as Hx'. apply blk_victims_elem in Hx'.
+    destruct Hx' as (y & _ & _ & bc & Hbc & _).
+    destruct (vu_poolS _ _ HU x bc Hbc Hrel) as (so & Hso).
+    destruct (decide (x ∈ unc)) as [Hu|Hu].
+    - destruct (Hev1b x Hx Hu) as (s & Hs). destruct (Hcan x s (or_intror Hs)) as (_ & _ & _ & Hus & _).
+      exists s. split; [apply (x_in _ _ _ _ HE2); right; apply HE1in, Hs|left; exact Hus].
+    - destruct (Ext_sticky _ _ _ _ x so HE2 Hso) as (s' & Hs' & _ & K2 & _).
+      exists s'. split; [exact Hs'|]. right. apply K2.
+      destruct (s_proof so) eqn:Ep; [eauto|]. destruct Hu. apply Hunc_elem. eapply vu_SU; eauto. }
+  assert (Hkeep : forall x u, unconf n !! x = Some u -> u_trusted u = true ->
+            (exists u2, unconf nf !! x = Some u2 /\ u_trusted u2 = true) \/
+            (exists s, states nf !! x = Some s /\ is_Some (s_proof s))).
+  { intros x u Hu Htr. destruct (decide (x ∈ txids txs)) as [Hx|Hx].
+    - right. destruct (Hpend_upd x Hx) as (s & Hs & Hps); [apply Hunc_elem; eauto|].
+      exists s. split; [apply (x_in _ _ _ _ HE2); right; apply HE2in, Hs|rewrite Hps; eauto].
+    - left. exists u. split; [apply Hunf; auto|exact Htr]. }
+  split.
+  - apply (gen_states (fun b' => b' = b) n m nf m1 A HS); [repeat split|exact HE2| | | |].
+    + intros b' Hb'. rewrite Hchf. apply elem_of_app. left. exact Hb'.
+    + intros b' Hb'. rewrite Hchf in Hb'. apply elem_of_app in Hb'.
+      destruct Hb' as [Hb'|Hb']; [apply (vs_chain0 _ _ HS), Hb'|]. apply elem_of_list_singleton in Hb'. lia.
+    + intros t s H. destruct (HETx t s H) as (_ & body & Htx). exists body. apply Hblk. exact Htx.
+    + intros t s b' H Hp ->. split; [rewrite Hchf; apply elem_of_app; right; left|]. apply Hinb.
+      destruct (Hall t s H) as [H1|H2].
+      * destruct (Hcan t s H1) as (Hpn & _). congruence.
+      * apply (Hnot t s H2).
+  - split.
+    + rewrite N5. subst nf. cbn [now set_unconf]. rewrite Hnow2, Hnow1. apply (vu_clock _ _ HU).
+    + rewrite N6. subst nf. cbn [insync set_unconf]. rewrite Hsy2, Hsy1. apply (vu_sync _ _ HU).
+    + rewrite N7, Hchf. unfold m1. cbn [m_chain]. rewrite (vu_chain _ _ HU). reflexivity.
+    + subst nf. cbn [delay set_unconf]. rewrite Hdl2, Hdl1. apply (vu_delay _ _ HU).
+    + rewrite N1. subst nf. cbn [mp set_unconf]. rewrite Hmp2. exact HR1.
+    + rewrite N1. intros x bx Hin. apply (vu_poolT _ _ HU). eapply blk_pool_sub. exact Hin.
+    + rewrite N1. intros x bx Hin Hrel. apply (Ext_some _ _ _ _ x HE2). eapply vu_poolS; [exact HU| |exact Hrel].
+      eapply blk_pool_sub. exact Hin.
+    + intros x. rewrite (notes_live_rem m1 A x) by (intros y s H; apply (HETx y s H)).
+      change (m_live m1) with (m_live m). rewrite (vu_L _ _ HU). split.
+      * intros [(u & Hu) Hno]. exists u. apply Hunf. split; [exact Hu|]. intros Hx.
+        destruct (Hpend_upd x Hx) as (s & Hs & Hps); [apply Hunc_elem; eauto|].
+        apply Hno. exists s. split; [right; apply HE2in, Hs|]. apply (ust_Some s b Hps). lia.
+      * intros (u & Hu). apply Hunf in Hu. destruct Hu as [Hu Hx]. split; [eauto|].
+        intros (s & Hs & Hus). destruct (Hall x s Hs) as [H1|H2].
+        -- destruct (Hcan x s H1) as (_ & Hu1 & _). congruence.
+        -- destruct (Hnot x s H2) as (_ & _ & _ & Hx' & _). contradiction.
+    + intros x (u & Hu). apply Hunf in Hu. destruct Hu as [Hu Hx].
+      destruct (vu_US _ _ HU x) as (so & Hso & Hpo); [eauto|].
+      destruct (Ext_sticky _ _ _ _ x so HE2 Hso) as (s & Hs & _).
+      exists s. split; [exact Hs|].
+      destruct (Ext_back _ _ _ _ x s HE2 Hs) as [H|[_ H]]; [|congruence].
+      destruct (Hall x s H) as [H1|H2].
+      * apply (Hcan x s H1).
+      * destruct (Hnot x s H2) as (_ & _ & _ & Hx' & _). contradiction.
+    + intros x s Hs Hp. destruct (Ext_back _ _ _ _ x s HE2 Hs) as [H|[Hk H]].
+      * destruct (Hall x s H) as [H1|H2].
+        -- destruct (Hcan x s H1) as (_ & _ & _ & _ & _ & _ & Hu & Hx & _).
+           apply Hunc_elem in Hu. destruct Hu as (u & Hu). exists u. apply Hunf. auto.
+        -- destruct (Hnot x s H2) as (Hps & _). congruence.
+      * destruct (vu_SU _ _ HU x s H Hp) as (u & Hu). exists u. apply Hunf. split; [exact Hu|].
+        intros Hx. destruct (Hpend_upd x Hx) as (s' & Hs' & _); [apply Hunc_elem; eauto|].
+        apply Hk, tkeys_elem. exists s'. right. apply HE2in, Hs'.
+    + intros x u Hu. apply Hunf in Hu. destruct Hu as [Hu Hx].
+      rewrite notes_seen_old; [rewrite (lookup_seen_ext m m1) by reflexivity; eapply vu_SEEN; eauto|].
+      intros s H. apply (HETx x s H).
+    + intros x u Hin Hu. apply Hunf in Hu. destruct Hu as [Hu Hx].
+      apply notes_safe in Hin. change (m_safe m1) with (m_safe m) in Hin.
+      destruct Hin as [Hin|(s & Hs & Hss)]; [eapply vu_SAFE1; eauto|].
+      apply andb_true_iff in Hss. destruct Hss as [Hs1 Hs2]. destruct (Hall x s Hs) as [H1|H2].
+      * destruct (Hcan x s H1) as (_ & _ & Hns & _). congruence.
+      * destruct (Hnot x s H2) as (_ & Hnu & _). congruence.
+    + intros x u Hu Hsafe. apply Hunf in Hu. destruct Hu as [Hu Hx].
+      destruct (vu_SAFE2 _ _ HU x u Hu Hsafe) as [H|H];
+        [left; apply notes_safe_mono, H|right; apply notes_unsafe_mono, H].
+    + rewrite N2. intros x u Hu Htr. apply Hunf in Hu. destruct Hu as [Hu Hx].
+      apply (vu_VCH _ _ HU x u Hu Htr).
+    + rewrite N2. intros x H. apply (vu_VCH2 _ _ HU). subst nf. cbn [mp set_unconf] in H. rewrite Hmp2 in H.
+      apply (Htrust x), H.
+    + rewrite N8. intros x Hin.
+      destruct (vu_VNOW _ _ HU x Hin) as [H|[(u & Hu & H)|[(s & Hs & H)|H]]].
+      * destruct (proj2 (Htrust x) H) as [K|[K|K]].
+        -- left. subst nf. cbn [mp set_unconf]. rewrite Hmp2. exact K.
+        -- pose proof K as K'. apply txids_elem in K'. destruct K' as (body & rel & Hbin). destruct rel.
+           ++ right. right. left. destruct (Hconf_tx x K) as (s & Hs & Hps); [exists body; apply Hblk, Hbin|].
+              exists s. auto.
+           ++ right. right. right. intros (body' & Hb'). destruct (T_body _ _ _ _ _ Hb' (Hblk _ _ _ Hbin)) as [_ Hc].
+              discriminate.
+        -- pose proof K as K'. apply blk_victims_elem in K'. destruct K' as (y & _ & _ & bc & Hbc & _).
+           destruct (vu_poolT _ _ HU x bc Hbc) as (rel & HTx). destruct rel.
+           ++ right. right. left. apply Hvic; [exact K|]. exists bc. exact HTx.
+           ++ right. right. right. intros (body' & Hb'). destruct (T_body _ _ _ _ _ Hb' HTx) as [_ Hc].
+              discriminate.
+      * destruct (Hkeep x u Hu H) as [K|(s & Hs & Hps)]; [right; left; exact K|].
+        right. right. left. exists s. auto.
+      * right. right. left. destruct (Ext_sticky _ _ _ _ x s HE2 Hs) as (s' & Hs' & K1 & K2 & _).
+        exists s'. split; [exact Hs'|]. destruct H; auto.
+      * right. right. right. exact H.
+    + rewrite N9. intros x Hin. destruct (vu_VPER _ _ HU x Hin) as [(u & Hu & H)|(s & Hs & H)].
+      * apply (Hkeep x u Hu H).
+      * right. destruct (Ext_sticky _ _ _ _ x s HE2 Hs) as (s' & Hs' & K1 & K2 & _). eauto.
+    + intros x u Hu Hun. apply Hunf in Hu. destruct Hu as [Hu Hx].
+      apply notes_unsafe_mono. apply (vu_UUNS _ _ HU x u Hu Hun).
+    + rewrite N3. intros x Hin Hrel. unfold m1 in Hin. cbn [m_conflicted] in Hin. apply Hcf in Hin.
+      destruct Hin as [Hin|Hin]; [|apply Hvic; assumption].
+      destruct (vu_CONF _ _ HU x Hin Hrel) as (s & Hs & H).
+      destruct (Ext_sticky _ _ _ _ x s HE2 Hs) as (s' & Hs' & K1 & K2 & _).
+      exists s'. split; [exact Hs'|]. destruct H; auto.
+Qed.
+
+(* ---------------------------------------------------------------------------------------- *)
+(* every operation of the history *)
+Lemma step_sim n m o : Inv n m -> o ∈ all ->
+  exists m', monitor_step dl m o (snd (step n o)) = (0, m') /\ Inv (fst (step n o)) m'.
+Proof.
+  intros HI Ho. destruct o as [t body rel src|t trusted|b prev txs valid| |dt|b| |t|].
+  - apply step_tx; assumption.
+  - cbn [step]. pose proof (step_inv n m t trusted HI) as H. cbv zeta in H. exact H.
+  - cbn [step]. apply step_block; assumption.
+  - cbn [step]. pose proof (step_delay n m HI) as H. destruct (delay_check n) as [n1 evs]. exact H.
+  - cbn [step fst snd]. apply step_advance; [exact HI|apply (v_adv _ _ Hv), Ho].
+  - cbn [step fst snd]. apply step_setsync. exact HI.
+  - cbn [step fst snd]. apply step_restart. exact HI.
+  - cbn [step fst snd]. apply step_gettx. exact HI.
+  - cbn [step fst snd]. apply step_unconf. exact HI.
+Qed.
+
+Lemma Inv_init : Inv (n_init dl) ms_init.
+Proof.
+  split.
+  - split; cbn.
+    + intros b Hb. apply elem_of_list_singleton in Hb. lia.
+    + intros t. rewrite lookup_empty. split; [intros H; apply elem_of_nil in H; destruct H|].
+      intros (? & ?). discriminate.
+    + intros t s H. rewrite lookup_empty in H. discriminate.
+    + intros t. split; [intros H; apply elem_of_nil in H; destruct H|].
+      intros (s & H & _). rewrite lookup_empty in H. discriminate.
+    + intros t s H. rewrite lookup_empty in H. discriminate.
+    + intros t H. apply elem_of_nil in H. destruct H.
+    + intros t (s & H). rewrite lookup_empty in H. discriminate.
+    + intros t s b H. rewrite lookup_empty in H. discriminate.
+  - split; cbn; try reflexivity.
+    + apply R_init.
+    + intros t b H. apply elem_of_nil in H. destruct H.
+    + intros t b H. apply elem_of_nil in H. destruct H.
+    + intros t. rewrite lookup_empty. split; [intros H; apply elem_of_nil in H; destruct H|].
+      intros (? & ?). discriminate.
+    + intros t (? & H). rewrite lookup_empty in H. discriminate.
+    + intros t s H. rewrite lookup_empty in H. discriminate.
+    + intros t u H. rewrite lookup_empty in H. discriminate.
+    + intros t u H. apply elem_of_nil in H. destruct H.
+    + intros t u H. rewrite lookup_empty in H. discriminate.
+    + intros t u H. rewrite lookup_empty in H. discriminate.
+    + intros t H. unfold is_trusted in H. cbn in H. rewrite lookup_empty in H. discriminate.
+    + intros t H. apply elem_of_nil in H. destruct H.
+    + intros t H. apply elem_of_nil in H. destruct H.
+    + intros t u H. rewrite lookup_empty in H. discriminate.
+    + intros t H. apply elem_of_nil in H. destruct H.
+Qed.
+
+Lemma monitor_silent_from ops' : forall n m i,
+  Inv n m -> (forall o, o ∈ ops' -> o ∈ all) -> monitor_from dl m i ops' (run_from n ops') = None.
+Proof.
+  induction ops' as [|o ops' IH]; intros n m i HI Hsub; [reflexivity|].
+  cbn [run_from monitor_from].
+  destruct (step_sim n m o HI) as (m' & Hm & HI'); [apply Hsub; left|].
+  destruct (step n o) as [n1 ob]. cbn [fst snd] in Hm, HI'. rewrite Hm. cbn [Z.eqb negb].
+  apply IH; [exact HI'|]. intros o' Ho'. apply Hsub. right. exact Ho'.
 Qed.
 
 End Flow.
